@@ -217,6 +217,24 @@ def run(fx, rep):
     rep.check(okk, 'R5', 'FunctionContext::new/fields', nb.loc(), 'name, this, ptx, args stored as given; arg_idx = 0', 'FunctionContext::new does not store its parameters as given with a zero cursor')
     rep.floor('R1', 14 if 'chrono' not in feats else 20)
     rep.floor('R2', 3)
+    # ---------------- R7 only operators are evaluated in place
+    rep.rule('R7', 'the evaluator special-cases operator names only; every other name is looked up in the function registry (so a host function replaces a built-in)')
+    from .evalmodel import OPERATORS, STR_EQ
+    m7 = EvalModel(fx)
+    nop = 0
+    for bi, t in m7.b.calls():
+        if F.norm_callee(t) not in STR_EQ or len(t['args']) != 2:
+            continue
+        sides = [m7.pv.of_operand(a) for a in t['args']]
+        consts = [x[1] for sd in sides for x in sd if x[0] == 'const' and isinstance(x[1], str)]
+        onname = any((ast_path(x) or ())[-1:] == ('func_name',) for sd in sides for x in sd if x[0] != 'const')
+        if not onname or not consts:
+            continue
+        for c in consts:
+            nop += 1
+            rep.check(c in OPERATORS, 'R7', 'evaluated-in-place/%s' % c, F.loc_of(t['span']), 'operator %s' % c,
+                      'Value::resolve evaluates calls of %r in place: a host function registered under that name never runs for that call shape, and x.%s() and %s(x) can disagree' % (c, c, c))
+    rep.floor('R7', 19)
     rep.floor('R3', 6)
 
 
